@@ -220,9 +220,9 @@ Qed.
 
 Section Server.
 Variable decode : list N -> option msg.
-Variable method_kind : list N -> N.
-Variable req_ok : list N -> bool.
-Variable service : list N -> list N -> option sres.
+Variable method_kind : N -> list N -> N.
+Variable req_ok : N -> list N -> bool.
+Variable service : N -> list N -> list N -> option sres.
 Notation dispatch := (dispatch method_kind req_ok service).
 Notation run := (run decode method_kind req_ok service).
 
@@ -245,18 +245,18 @@ Proof.
   unfold Model.dispatch. intros H HW.
   destruct (m_type m =? REQUEST).
   - unfold handle_request in H.
-    destruct (method_kind (m_name m) =? 3); [inversion H; subst; cbn; rewrite app_nil_r; exact HW|].
-    destruct (method_kind (m_name m) =? 0).
+    destruct (method_kind (svc r) (m_name m) =? 3); [inversion H; subst; cbn; rewrite app_nil_r; exact HW|].
+    destruct (method_kind (svc r) (m_name m) =? 0).
     + destruct (send_msg _ _ _ _) as [[r1 e1] b1] eqn:E. inversion H; subst.
       apply send_msg_srv in E as (R1 & R2 & R3 & R4). rewrite R4, app_nil_r. unfold WR in *.
       rewrite R1, R2, R3. exact HW.
-    + destruct (negb (req_ok (m_buf m))); [inversion H; subst; cbn; rewrite app_nil_r; exact HW|].
+    + destruct (negb (req_ok (svc r) (m_buf m))); [inversion H; subst; cbn; rewrite app_nil_r; exact HW|].
       destruct (supersede cl ok r (m_id m)) as [r1 evs1] eqn:E1.
       eapply supersede_W in E1; [|exact HW]. destruct E1 as (W1 & F1 & Hk & Hn).
       set (r2 := set_server r1 (nreq r1 + 1) ((m_id m, nreq r) :: requests r1) (cancelled r1)) in *.
       assert (W2 : WR r2 fr).
       { unfold WR, r2; cbn. rewrite <- Hn. apply W_register; assumption. }
-      destruct (service (m_name m) (m_buf m)) as [res|].
+      destruct (service (svc r) (m_name m) (m_buf m)) as [res|].
       * destruct (request_complete _ _ _ _ _) as [r3 evs3] eqn:E3. inversion H; subst.
         eapply request_complete_W in E3; [|exact W2].
         rewrite freed_app, F1. cbn [app]. unfold freed at 1. cbn [flat_map app]. fold (freed evs3). exact E3.
@@ -265,14 +265,14 @@ Proof.
     + unfold handle_response in H. destruct (lookup _ _); inversion H; subst; cbn; rewrite app_nil_r; exact HW.
     + destruct (m_type m =? STREAM_REQUEST); [|inversion H; subst; cbn; rewrite app_nil_r; exact HW].
       unfold handle_stream_request in H.
-      destruct (method_kind (m_name m) =? 3); [inversion H; subst; cbn; rewrite app_nil_r; exact HW|].
-      destruct (method_kind (m_name m) =? 0).
+      destruct (method_kind (svc r) (m_name m) =? 3); [inversion H; subst; cbn; rewrite app_nil_r; exact HW|].
+      destruct (method_kind (svc r) (m_name m) =? 0).
       * destruct (send_msg _ _ _ _) as [[r1 e1] b1] eqn:E. inversion H; subst.
         apply send_msg_srv in E as (R1 & R2 & R3 & R4). rewrite R4, app_nil_r. unfold WR in *.
         rewrite R1, R2, R3. exact HW.
-      * destruct (negb (method_kind (m_name m) =? 2));
+      * destruct (negb (method_kind (svc r) (m_name m) =? 2));
           [inversion H; subst; cbn; rewrite app_nil_r; exact HW|].
-        destruct (negb (req_ok (m_buf m))); inversion H; subst; cbn; rewrite app_nil_r; exact HW.
+        destruct (negb (req_ok (svc r) (m_buf m))); inversion H; subst; cbn; rewrite app_nil_r; exact HW.
 Qed.
 
 Lemma call_method_W cl ok st nm rq r r' evs fr :
